@@ -10,8 +10,10 @@ Definition Reqb (x y : R) : bool := if Req_EM_T x y then true else false.
 Definition Rfloor (x : R) : Z := (up x - 1)%Z.
 Definition Rceil (x : R) : Z := (- Rfloor (- x))%Z.
 
+Definition Rfmod (x y : R) : R := x - y * IZR (Rfloor (x / y)).
+
 Definition Rops : NumOps R :=
-  MkNumOps R Rplus Rminus Rmult Rdiv Ropp sqrt Rltb Rleb Reqb IZR Rceil Rfloor.
+  MkNumOps R Rplus Rminus Rmult Rdiv Ropp sqrt Rltb Rleb Reqb IZR Rceil Rfloor Rfmod.
 
 Lemma Rltb_true x y : Rltb x y = true <-> x < y.
 Proof. unfold Rltb; destruct (Rlt_dec x y); split; intros; try easy; lra. Qed.
@@ -55,4 +57,13 @@ Lemma Rceil_ge x z : IZR z < x + 1 -> (z <= Rceil x)%Z.
 Proof.
   intros H. destruct (Rceil_spec x) as [_ H1].
   assert (IZR z < IZR (Rceil x) + 1) by lra. rewrite <- plus_IZR in H0. apply lt_IZR in H0. lia.
+Qed.
+
+Lemma Rfmod_range x y : 0 < y -> 0 <= Rfmod x y < y.
+Proof.
+  intros Hy. unfold Rfmod. destruct (Rfloor_spec (x / y)) as [H1 H2].
+  assert (E : x = y * (x / y)) by (field; lra).
+  split.
+  - apply Rmult_le_compat_l with (r := y) in H1; lra.
+  - apply Rmult_lt_compat_l with (r := y) in H2; lra.
 Qed.
